@@ -9,8 +9,10 @@ Open Scope N_scope.
 
 (* ------------------------------------------------------------------ participant *)
 (* Transaction::Put / Transaction::Delete (affected_key = storage_key = key) *)
-Inductive pop := Put (k v : N) | Del (k : N).
-Definition pop_key (o : pop) : N := match o with Put k _ => k | Del k => k end.
+(* ... and Transaction::CompareAndSwap: write v only if the current value is e; a non-matching CAS is skipped, the
+   rest of the batch still runs *)
+Inductive pop := Put (k v : N) | Del (k : N) | Cas (k e v : N).
+Definition pop_key (o : pop) : N := match o with Put k _ => k | Del k => k | Cas k _ _ => k end.
 
 (* PrepareVote: Yes{lock_handle} | Conflict{conflicting_tx}  (participants never answer No) *)
 Inductive vote := VYes (h : N) | VConflict (o : N).
@@ -44,7 +46,11 @@ Definition p_prepare (now h : N) (p : part) (tx : N) (ops : list pop) : part * v
   end.
 
 Definition apply_op (st : list (N * N)) (o : pop) : list (N * N) :=
-  match o with Put k v => aset st k v | Del k => adel st k end.
+  match o with
+  | Put k v => aset st k v
+  | Del k => adel st k
+  | Cas k e v => match aget st k with Some x => if N.eqb x e then aset st k v else st | None => st end
+  end.
 Definition undo_one (st : list (N * N)) (e : N * option N) : list (N * N) :=
   match snd e with Some v => aset st (fst e) v | None => adel st (fst e) end.
 
